@@ -72,6 +72,7 @@ func obsExec(scenario string, hist []string) vc.BFSState {
 			}
 			st.Violations = append(st.Violations, vc.BFSViolation{Signature: sig, Class: "step", Message: msg})
 		}
+		heard := uint64(0) // newest gossiped intent about x received while the node did not know x yet
 		for i, a := range hist {
 			s0, l0, k0 := look()
 			op, t := a, uint64(0)
@@ -111,6 +112,13 @@ func obsExec(scenario string, hist []string) vc.BFSState {
 			}
 			vsched.Quiesce()
 			s1, l1, k1 := look()
+			if !k0 && !k1 && (op == "join" || op == "leave") && t > heard {
+				heard = t
+			}
+			if !k0 && k1 && l1 < heard {
+				// nothing expires here (no time passes): the newest buffered intent decides the new record
+				viol("record-created-older-than-buffered-intent", fmt.Sprintf("history %v: step %d (%s) created the record of x as %s with status time %d although an intent with time %d about x had been received (and buffered) before: an older intent overrode a newer one", hist[:i+1], i, a, s1, l1, heard))
+			}
 			if k0 && !k1 {
 				viol("member-record-vanished", fmt.Sprintf("history %v: step %d (%s) removed the record of x although nothing was reaped or pruned", hist[:i+1], i, a))
 			}
